@@ -557,6 +557,175 @@ Proof. exact AGH.Proofs.Rewrites.terminates. Qed.
 Print Assumptions C05_rewrite_chase_returns.
 
 
+(** * Round 6: every critical section ends (lock balance)
+
+    [C05_no_deadlock_stall_free] and its corollaries are about threads that
+    are finite event lists; what that representation cannot contain was, until
+    now, only NAMED as a premise ("a thread releases what it took").  Its
+    syntactic part is an obligation now: on every path from an acquisition to
+    an exit of the SAME function the lock is released (or the function is a
+    declared hand-over).  tools/locktable/balance.go explores every path of
+    every function of the repository's packages up to the lock state and
+    emits one witness per exit and state (Gen/LockTableBalance.v); Coq
+    re-evaluates [sections_end] on every witness. *)
+
+From AGH Require Import Model.LockBalance Proofs.ConcBalance Proofs.LockTableBalance Gen.LockTableBalance Proofs.LockTableBalanceInst.
+
+(** Instance, re-checked on every run: no function path of the current source
+    returns or panics with a lock it acquired, no hand-over is undeclared,
+    nothing is undecided. *)
+Theorem C05_every_section_ends_syntactically :
+  balance_ok balance_fns balance_leaks balance_unresolved balance_handovers balance_allowed = true.
+Proof. exact every_section_ends_syntactically. Qed.
+Print Assumptions C05_every_section_ends_syntactically.
+
+(** The same spelt out: every path found through every plain function is a
+    list of sections that end; it is neutral whatever its caller holds and can
+    be inserted into any caller's path. *)
+Theorem C05_current_source_sections_end :
+  balance_leaks = [] /\ balance_unresolved = [] /\
+  forall f, In f balance_fns -> is_plain f = true ->
+  forall x, In x (bf_exits f) ->
+    sections_end (be_events x) = true /\
+    inlined (be_events x) /\
+    forall h, balanced h (be_events x) = true /\ held_after h (be_events x) = h.
+Proof. exact current_source_sections_end. Qed.
+Print Assumptions C05_current_source_sections_end.
+
+(** Generic in the table. *)
+Theorem C05_balance_ok_sections_end : forall fns leaks unres hs al,
+  balance_ok fns leaks unres hs al = true ->
+  leaks = [] /\ unres = [] /\
+  forall f, In f fns -> is_plain f = true ->
+  forall x, In x (bf_exits f) ->
+    sections_end (be_events x) = true /\
+    inlined (be_events x) /\
+    forall h, balanced h (be_events x) = true /\ held_after h (be_events x) = h.
+Proof. exact balance_ok_sections_end. Qed.
+Print Assumptions C05_balance_ok_sections_end.
+
+(** Hand-overs and inlined closures: neutral in the declared context. *)
+Theorem C05_balance_ok_handover : forall fns leaks unres hs al,
+  balance_ok fns leaks unres hs al = true ->
+  forall f, In f fns -> forall x, In x (bf_exits f) ->
+    sections_end (acqs (be_entry x) ++ be_events x ++ rels (be_exit x)) = true.
+Proof. exact balance_ok_handover. Qed.
+Print Assumptions C05_balance_ok_handover.
+
+(** From functions to goroutines: a list whose sections end is neutral in any
+    context, so a thread assembled from such per-function paths by inserting
+    the callee's path at the call, to any depth, is a thread whose sections
+    end. *)
+Theorem C05_sections_end_neutral : forall p,
+  sections_end p = true -> forall h, balanced h p = true /\ held_after h p = h.
+Proof. exact sections_end_neutral. Qed.
+Print Assumptions C05_sections_end_neutral.
+
+Theorem C05_function_balance_composes : forall p, inlined p -> sections_end p = true.
+Proof. exact inlined_sections_end. Qed.
+Print Assumptions C05_function_balance_composes.
+
+Example C05_inlined_example :
+  inlined ([Acq "serverLock" R; Rd "conf"; Rel "serverLock" R] ++
+           [Acq "serverLock" R; Rd "tls"; Rel "serverLock" R] ++
+           [Acq "serverLock" R; Rel "serverLock" R]) /\
+  sections_end [Acq "serverLock" R; Rd "tls"] = false.
+Proof. exact inlined_example. Qed.
+Print Assumptions C05_inlined_example.
+
+(** The corollary of [C05_no_deadlock_stall_free] for balanced finite
+    threads: if no reachable state is deadlocked, the machine never stalls,
+    and every run that cannot be extended ends with all threads through AND
+    every mutex as at start-up: no writer, no reader, no pending writer.
+    Whoever comes next (the query after the admin write) finds the locks
+    free. *)
+Theorem C05_balanced_threads_stall_free : forall progs,
+  Forall (fun p => sections_end p = true) progs ->
+  (forall s, reachable (init progs) s -> ~ deadlocked s) ->
+  stall_free (init progs) /\
+  (forall s, reachable (init progs) s ->
+     forall n s', steps n s s' -> stuck s' ->
+       finished s' /\
+       forall l, writer (locks s' l) = false /\ readers (locks s' l) = 0 /\ pending (locks s' l) = 0).
+Proof. exact balanced_threads_stall_free. Qed.
+Print Assumptions C05_balanced_threads_stall_free.
+
+(** The earlier premises contain balance: threads that pass the ranking check
+    or conform to the acquisition sites end all their sections. *)
+Theorem C05_ranked_sections_end : forall rank p, ranked rank [] p = true -> sections_end p = true.
+Proof. exact ranked_sections_end. Qed.
+Print Assumptions C05_ranked_sections_end.
+
+Theorem C05_conforms_sites_sections_end : forall sites p,
+  conforms_sites sites [] p = true -> sections_end p = true.
+Proof. exact conforms_sites_sections_end. Qed.
+Print Assumptions C05_conforms_sites_sections_end.
+
+Theorem C05_gated_balanced_stall_free : forall rank0 rkd sites,
+  gated_with rank0 rkd sites = true ->
+  forall progs, Forall (fun p => conforms_sites sites [] p = true) progs ->
+  stall_free (init progs) /\
+  (forall s, reachable (init progs) s -> forall n s', steps n s s' -> stuck s' ->
+     finished s' /\
+     forall l, writer (locks s' l) = false /\ readers (locks s' l) = 0 /\ pending (locks s' l) = 0).
+Proof. exact gated_balanced_stall_free. Qed.
+Print Assumptions C05_gated_balanced_stall_free.
+
+(** Non-vacuity: three balanced threads (two queries, one admin write under
+    the control lock). *)
+Example C05_balanced_stall_free_example :
+  let progs := [[Acq "serverLock" R; Rd "conf"; Rel "serverLock" R];
+                [Acq "controlLock" W; Acq "serverLock" W; Wr "conf"; Rel "serverLock" W; Rel "controlLock" W];
+                [Acq "serverLock" R; Rd "conf"; Rel "serverLock" R]] in
+  Forall (fun p => sections_end p = true) progs /\ stall_free (init progs).
+Proof. exact balanced_stall_free_example. Qed.
+Print Assumptions C05_balanced_stall_free_example.
+
+(** The premise is needed, on the shape of seeded change C05-K: the request
+    whose ClientID extraction returns between RLock and RUnlock, then POST
+    /control/access/set, then the next query: the writer announces itself and
+    waits for ever, the query waits behind the pending writer. *)
+Example C05_leaked_read_lock_stalls :
+  let leak := [Acq "dnsforward.Server.serverLock" R; Rd "dnsforward.Server.conf"] in
+  let set_access := [Acq "dnsforward.Server.serverLock" W; Wr "dnsforward.Server.conf"; Rel "dnsforward.Server.serverLock" W] in
+  let query := [Acq "dnsforward.Server.serverLock" R; Rd "dnsforward.Server.conf"; Rel "dnsforward.Server.serverLock" R] in
+  sections_end leak = false /\ sections_end set_access = true /\ sections_end query = true /\
+  exists s,
+    reachable (init [leak; set_access; query]) s /\
+    stuck s /\ ~ finished s /\
+    threads s = [TH false []; TH true set_access; TH false query].
+Proof. exact leaked_read_lock_stalls. Qed.
+Print Assumptions C05_leaked_read_lock_stalls.
+
+(** The check itself on small tables: the rows of the changed function fail at
+    the exit that keeps the read lock; undeclared hand-overs, releases of what
+    is not held, reported rows and undecided items fail. *)
+Example C05_balance_examples :
+  balance_ok [ex_fn_ok; ex_handover] [] []
+    [("stats.finishTxn", [("stats.StatsCtx.db.writer", W)], [], "ends the caller's transaction")] [] = true /\
+  fn_ok ex_fn_leak = false /\
+  map exit_ok (bf_exits ex_fn_leak) = [true; false; true] /\
+  balance_ok [ex_handover] [] [] [] [] = false /\
+  fn_ok (BalFn "stats.finishTxn" "function" "" (bf_exits ex_handover)) = false /\
+  fn_ok (BalFn "f" "function" "" [BalExit "return" "" [] [] [Rel "mu" W]]) = false /\
+  balance_ok [ex_fn_ok] [BalLeak "leak" "f" ("mu", W) "a" "b"] [] [] [] = false /\
+  balance_ok [ex_fn_ok] [] [("unresolved-balance@x", "pos")] [] [] = false /\
+  balance_ok [BalFn "f" "allowed" "" [BalExit "return" "" [] [("mu", W)] [Acq "mu" W]]] [] [] [] [] = false /\
+  balance_ok [BalFn "f" "allowed" "" [BalExit "return" "" [] [("mu", W)] [Acq "mu" W]]] [] [] []
+    [("f", "unresolved-balance@f@mu", "the reason")] = true /\
+  balance_ok [BalFn "f" "whatever" "" [BalExit "return" "" [] [("mu", W)] [Acq "mu" W]]] [] [] [] [] = false.
+Proof. exact balance_examples. Qed.
+Print Assumptions C05_balance_examples.
+
+(** The real table is not empty and covers the ClientID extraction. *)
+Example C05_balance_table_covers_clientid_extraction :
+  existsb (fun f => String.eqb (bf_fn f) "(*dnsforward.Server).clientIDFromDNSContext" && is_plain f &&
+                    existsb (fun x => negb (nil_b (be_events x))) (bf_exits f)) balance_fns = true /\
+  Nat.leb 20 (List.length balance_fns) = true.
+Proof. exact balance_table_covers_clientid_extraction. Qed.
+Print Assumptions C05_balance_table_covers_clientid_extraction.
+
+
 (** * Round 4: lease names that flow from the admin API into DNS answers
 
     (The DHCPv4 model is imported only here: its [state], [step], [event],
